@@ -5,5 +5,5 @@ EXTENDS Tokens, TokensConsts, Json
 (* every maximal behaviour (a complete expression and MaxActs calls on it) is *)
 (* printed once, as JSON, for the replay driver                              *)
 Terminal == mode = "done" /\ Len(acts) = MaxActs
-Emit == Terminal => PrintT(<< "BEH", ToJson([toks |-> toks, acts |-> acts]) >>)
+Emit == Terminal => PrintT(<< "BEH", ToJson([toks |-> toks, acts |-> acts, lone |-> Lone(toks)]) >>)
 =============================================================================
